@@ -298,6 +298,11 @@ def universalNewlines : Str → Str
 filesystem and the decoding are not modelled) -/
 def graphFromFileContent (decoded : Str) : PyM Graph := graphFromMolfileText (universalNewlines decoded)
 
+/-- `graph_from_file(path)`: `suffix` is `Path(path).suffix`; anything but `.mol` is refused with `IOError` (= `OSError`)
+before the file is opened -/
+def graphFromFile (suffix : Str) (decoded : Str) : PyM Graph :=
+  if suffix != cs ".mol" then .error .osError else graphFromFileContent decoded
+
 /-! ## writer -/
 
 /-- `_add_v30_line`: the physical lines for one logical line -/
